@@ -383,7 +383,7 @@ def reachFrom (tb : Tables) (m : Model) : Nat → List Nat → List Nat
   | 0, seen => seen
   | fuel + 1, seen =>
     let new := (seen.flatMap (dscOf tb m)).filter (fun s => offeredB m s && !seen.contains s)
-    if new.isEmpty then seen else reachFrom tb m fuel (seen ++ new.eraseDups)
+    if new.isEmpty then seen else reachFrom tb m fuel (seen ++ sunion [] new)
 
 structure WfReport where
   mandatorySessions : Bool
